@@ -582,6 +582,41 @@ theorem segment_maps_apply_no_panic_partial (d : List Nat) (hb : Bytes d) (coord
     (hk : AvarKernelTotal coord) : segmentMapsApply d coord ≠ .trap :=
   segmentMapsApply_no_trap d hb coord hk
 
+/-! ## `read_dense_deltas`, `read_sparse_deltas`, `accumulate_{dense,sparse}_deltas` -/
+
+/-- **`accumulate_dense_deltas` terminates, stays inside the caller's buffer and fails only with
+`OutOfBounds`**, for every `PointCoord` instantiation: each trip of `while cur < count` consumes a run of
+at least one value (the model's fuel `count + 1` suffices), `deltas.get_mut(cur..cur + run_count)` is
+`Err` when the run overshoots, and the buffer keeps its length.  With total coordinate arithmetic
+(`ArithTotal`: `Fixed` / `F26Dot6`, see `arith_total_wrapping`) it never panics. -/
+theorem accumulate_dense_safe (k : DKind) (scalar : Int) (dd : List Nat) (xs ys : List Int)
+    (hx : xs.length ≤ 4294967296) (hy : ys.length ≤ 4294967296) :
+    (ArithTotal k scalar → accumulateDense k scalar dd xs ys ≠ .trap) ∧
+    (∀ e, accumulateDense k scalar dd xs ys = .err e → e = .oob) ∧
+    ∀ xs' ys', accumulateDense k scalar dd xs ys = .ok (xs', ys') → xs'.length = xs.length ∧ ys'.length = ys.length :=
+  accumulateDense_facts k scalar dd xs ys hx hy
+
+/-- **`accumulate_sparse_deltas`**: the same for the sparse reader — at most `point_numbers.count() ≤
+32767` trips per pass, point indices beyond the buffers are skipped (`get_mut`), running out of point
+numbers inside a zero run is `OutOfBounds`, inside a valued run the `zip` just ends; the buffers and the
+flags keep their lengths. -/
+theorem accumulate_sparse_safe (k : DKind) (scalar : Int) (pd dd : List Nat) (xs ys : List Int) (flags : List Bool)
+    (hxy : xs.length = ys.length) :
+    (ArithTotal k scalar → accumulateSparse k scalar pd dd xs ys flags ≠ .trap) ∧
+    (∀ e, accumulateSparse k scalar pd dd xs ys flags = .err e → e = .oob) ∧
+    ∀ xs' ys' f', accumulateSparse k scalar pd dd xs ys flags = .ok (xs', ys', f') →
+      xs'.length = xs.length ∧ ys'.length = ys.length ∧ f'.length = flags.length :=
+  accumulateSparse_facts k scalar pd dd xs ys flags hxy
+
+/-- **the wrapping instantiations have total arithmetic**: for `D = Fixed` / `F26Dot6` (whose `+=` is
+`wrapping_add`) and `scalar == Fixed::ONE` unconditionally; for any other `i32` scalar given C20's
+`fxMul_no_trap` (`hm`).  For `D = i32` the `+=` is the plain `i32` addition: that is known finding
+`C01-accumulate-deltas-i32-overflow`, see the `example` below. -/
+theorem arith_total_wrapping (k : DKind) (hk : k ≠ .int) :
+    ArithTotal k 65536 ∧
+    ∀ scalar, I32 scalar → (∀ a b, I32 a → I32 b → (Checked.fxMul a b).isSome) → ArithTotal k scalar :=
+  ⟨arithTotal_one k hk, fun scalar hs hm => arithTotal_scaled k hk scalar hs hm⟩
+
 /-! ## non-vacuity -/
 
 /-- an embedded peak + intermediate header for one axis: 4 + 2 + 4 bytes -/
@@ -639,6 +674,20 @@ example : (match dsimRead [0, 0x17, 0, 2, 1, 2, 3, 4] with
 
 example : mvarSearch [10, 20, 30, 40] 30 5 0 4 = .ok (some 2) ∧ mvarSearch [10, 20, 30, 40] 35 5 0 4 = .ok none := by
   constructor <;> rfl
+
+/-- the known finding is real in the model: point 1 listed twice with two `i32::MAX` deltas — the `i32`
+instantiation panics, `Fixed` wraps -/
+example : accumulateSparse .int 65536 [2, 1, 1, 0] [0xC1, 0x7F, 0xFF, 0xFF, 0xFF, 0x7F, 0xFF, 0xFF, 0xFF, 0xC1, 0, 0, 0, 0, 0, 0, 0, 0]
+    [0, 0, 0, 0] [0, 0, 0, 0] [false, false, false, false] = .trap := by rfl
+
+example : (match accumulateSparse .fixed 65536 [2, 1, 1, 0] [0xC1, 0x7F, 0xFF, 0xFF, 0xFF, 0x7F, 0xFF, 0xFF, 0xFF, 0xC1, 0, 0, 0, 0, 0, 0, 0, 0]
+    [0, 0, 0, 0] [0, 0, 0, 0] [false, false, false, false] with
+    | .ok (xs, _, fl) => some (xs, fl) | _ => none) = some ([0, -131072, 0, 0], [false, true, false, false]) := by
+  decide +kernel
+
+/-- a dense tuple: two `i8` x deltas, two zero y deltas -/
+example : (match accumulateDense .f26dot6 65536 [0x01, 5, 0xFB, 0x81] [7, 7] [7, 7] with
+    | .ok r => some r | _ => none) = some ([7 + 5 * 64, 7 - 5 * 64], [7, 7]) := by decide +kernel
 
 /-- the byte hypothesis is satisfiable -/
 example : Bytes exGvar := by unfold Bytes; decide
